@@ -34,5 +34,49 @@ CHECKS = {
         design_ref='§5 C18', technique='Lean 4 proof (closed form + refinement by induction over histories) + differential correspondence',
         note=TB + 'Concurrent callers: sequential model proved; atomicity rests on the mutex (checked structurally / by the race detector), labelled partial.'),
 }
+TBB = ('Trusted: Lean 4.33 kernel (axioms propext, Classical.choice, Quot.sound only; no sorry/native_decide); the hand-written broker LTS '
+       'lean/Model/Broker.lean (stimuli at quiescence; an acceptor for the observations); the trace-conformance harness gosyn/brokertrace (real broker.Client + '
+       'MemoryBackend inside a testing/synctest bubble, scripted peers, wrapping backend), the Lean driver, the monitors, the check script. The theorems are about the '
+       'model; every run checks that each observed broker output is an enabled output of the model on the generated scripts (sampling) and evaluates independent '
+       'property monitors on the real outputs. Not modelled: a publish blocking on the full queue of another online client, processors blocked on exhausted tokens, wall-clock values. ')
+BROKER = {
+    'C06': ('Fan-out exactness (every session related by FanRel: one copy iff a stored filter matches per MQTT 4.7, retain cleared, nothing else touched), QoS capping = min, '
+            'own QoS per filter of a multi-filter SUBSCRIBE, replacement on re-subscribe, removal on unsubscribe before the UNSUBACK is queued are Lean theorems for every broker state; '
+            'random multi-client histories are replayed against the real broker and accepted by the model; an independent 4.7 delivery monitor runs on the real outputs.',
+            'Lean 4 proof (induction over the session lists / subscription trie) + trace conformance'),
+    'C07': ('PUBACK/PUBCOMP are queued only after Backend.Publish returned, PUBREC only after the message is stored, every PUBREL is answered, a synchronously acknowledged QoS 2 message is '
+            'forgotten before its PUBCOMP is queued so a repeated PUBREL hands nothing on: Lean theorems per processor step for every state; late/never acknowledging backends with a connection loss are a '
+            'recorded known finding (full statement refuted, partial proved). Publisher scripts with drops, failing sends and ack modes are replayed against the real broker.',
+            'Lean 4 proof (per-step theorems on the processor model) + trace conformance'),
+    'C08': ('Recorded-before-sent, kept-until-acknowledged (frame theorems: only PUBACK/PUBCOMP delete, PUBREC replaces by PUBREL), resend of exactly the stored packets in store order with DUP, '
+            'session-present iff stored state was resumed, clean start discards, offline queueing up to capacity: Lean theorems for every state; subscriber scripts with cuts at every point are replayed against the real broker.',
+            'Lean 4 proof (frame/invariant theorems on the outbound model) + trace conformance'),
+    'C11': ('The retained store refines the map "last non-empty retained publish per topic" for every publish history; a subscription is handed exactly the retained messages whose topics its filter matches (via search_correct), '
+            'flagged retained; live copies have the flag cleared: Lean theorems; retained/clear/will histories with every filter of the filter set are replayed against the real broker.',
+            'Lean 4 proof (refinement to a map over publish histories) + trace conformance'),
+    'C12': ('Every termination cause funnels through one kill/cleanup function whose backend events are proved to be exactly [will publish iff accepted, will present, no DISCONNECT] ++ [Terminate], once (a dead connection is a fixed point); '
+            'the stored will equals the CONNECT will: Lean theorems for every state; cause x protocol-state x will-flag scripts are replayed against the real broker with a will-count monitor.',
+            'Lean 4 proof (case analysis of the lifecycle model) + trace conformance'),
+    'C13': ('unique_active (at most one live connection per client id) as an inductive invariant over every reachable state of the model, takeover order (old will + Terminate precede the newcomer\'s Setup/CONNACK), '
+            'session hand-over without loss or duplication: Lean theorems; takeover storms incl. stuck old connections are replayed against the real broker.',
+            'Lean 4 proof (inductive invariant over the LTS) + trace conformance'),
+    'C14': ('Isolation (a step of one connection leaves every other connection record untouched and only appends to other sessions\' queues), out-of-protocol input closes only the offender, Terminate exactly once per set-up connection, '
+            'closed signal at quiescence, and the envelope in which the model is total: Lean theorems; hostile histories next to witness traffic are replayed against the real broker (process crash or undrained goroutines = violation).',
+            'Lean 4 proof (frame theorems) + trace conformance'),
+    'C15': ('Queues are FIFO per class (enqueue at the tail, delivery from the head / first group), one atomic fan-out per publish, resend in store order = order of first transmission: Lean theorems; numbered-message scripts with '
+            'resumes are replayed against the real broker with an order monitor. Client-side clauses (callback order, service command FIFO) are covered by the client/service models.',
+            'Lean 4 proof (queue discipline theorems) + trace conformance'),
+    'C16': ('The window invariant (tokens + token in hand + stored unacknowledged packets <= window) over every reachable state under the explicit hypothesis that the subscriber acknowledges only what it received '
+            '(the spurious-ack witness is a lemma), QoS 0 takes no slot, no token leak, progress at quiescence: Lean theorems; acknowledgement patterns are replayed against the real broker with a window monitor.',
+            'Lean 4 proof (inductive invariant over the LTS) + trace conformance'),
+    'C20': ('Nothing before CONNECT (any other first packet = kill without reply or backend call), failed authentication = exactly one CONNACK(5) and nothing else, second CONNECT / server-only packets close, '
+            'SUBACK/UNSUBACK/PINGRESP match their request, at most one CONNACK: Lean theorems for every state; all short packet sequences are replayed against the real broker.',
+            'Lean 4 proof (case analysis of the processor model) + trace conformance'),
+}
+import json as _json, os as _os
+_props = _json.load(open(_os.path.join(_os.path.dirname(_os.path.dirname(_os.path.abspath(__file__))), 'lean', 'PROPS.json')))
+for _pid, (_text, _tech) in BROKER.items():
+    if _props.get(_pid, {}).get('theorems'):
+        CHECKS[_pid] = dict(text=_text + ((' Partial: ' + _props[_pid]['partial']) if _props[_pid].get('partial') else ''), design_ref='§5 ' + _pid, technique=_tech, note=TBB)
 _PENDING = 'check not built yet in this revision (planned, see DESIGN.md §10); nothing is claimed'
 NOT_APPLICABLE = {f'C{n:02d}': _PENDING for n in range(1, 21) if f'C{n:02d}' not in CHECKS}
